@@ -161,6 +161,8 @@ class Flow(Tr):
         text = ast.unparse(n)
         if text in self.env and self.env[text] is None:
             raise TranslateError(f"{text} depends on an untranslated statement")
+        if isinstance(n, ast.Subscript) and getattr(self, "_mask", None) and ast.unparse(n.slice) == self._mask:
+            return self.expr(n.value)
         return super().expr(n)
 
     def _targets(self, st):
@@ -197,14 +199,15 @@ class Flow(Tr):
                         self.env[k] = f"(if {test} then {va} else {vb})"
                 continue
             if (isinstance(st, ast.Assign) and len(st.targets) == 1 and isinstance(st.targets[0], ast.Subscript)
-                    and isinstance(st.targets[0].value, ast.Name) and self.env.get(st.targets[0].value.id) is not None
-                    and isinstance(st.value, ast.Constant)):
-                # masked assignment  x[mask] = const   ->   if mask then const else x
+                    and isinstance(st.targets[0].value, ast.Name) and self.env.get(st.targets[0].value.id) is not None):
+                # masked assignment  x[mask] = e   ->   if mask then e else x   (inside e, y[mask] reads y)
                 name = st.targets[0].value.id
+                self._mask = ast.unparse(st.targets[0].slice)
                 try:
                     self.env[name] = f"(if {self.expr(st.targets[0].slice)} then {self.expr(st.value)} else {self.env[name]})"
                 except TranslateError:
                     self.env[name] = None
+                self._mask = None
                 continue
             if isinstance(st, ast.Assign):
                 try:
@@ -259,6 +262,8 @@ class NFlow(Flow):
             if self.env[text] is None:
                 raise TranslateError(f"{text} depends on an untranslated statement")
             return self.env[text]
+        if isinstance(n, ast.Subscript) and getattr(self, "_mask", None) and ast.unparse(n.slice) == self._mask:
+            return self._e(n.value)
         if isinstance(n, ast.Call) and isinstance(n.func, ast.Attribute) and not n.keywords:
             a = n.func.attr
             if a == "flatten" and not n.args:
@@ -363,7 +368,7 @@ def _np_interval_defs():
 
 
 def gen_C03():
-    return [_unit_pred_def()] + _np_interval_defs()[:2]
+    return [_unit_pred_def()] + _np_interval_defs()[:2] + _gauss_agg_defs()[0]
 
 
 def gen_C05():
@@ -475,6 +480,36 @@ def gen_C07():
     fn = _find(tree, "BootstrapElectionModel", "_is_top_level_aggregate")
     tr = Tr(src, {"aggregate": "aggregate"})
     out.append(lean_def("is_top_level_aggregate", [("aggregate", "List String")], "Bool", tr.body(fn)))
+    # _adjust_called_contests: masked maximum / minimum
+    fn = _find(tree, "BootstrapElectionModel", "_adjust_called_contests")
+    fl = NFlow(src, {"to_call.copy()": "pred", "to_call": "pred", "np.isclose(called_contests, 1)": "(B: isLhs)",
+                     "np.isclose(called_contests, 0)": "(B: isRhs)", "self.lhs_called_threshold": "lhsT", "self.rhs_called_threshold": "rhsT"})
+    fl.run(fn.body)
+    if fl.ret is None:
+        raise TranslateError("_adjust_called_contests: return")
+    cp = [("pred", "Rat"), ("isLhs", "Bool"), ("isRhs", "Bool"), ("lhsT", "Rat"), ("rhsT", "Rat")]
+    out.append(lean_def("adjust_called", cp, "Rat", "  " + fl.final(fl.value(fl.ret))))
+    # the overrides of get_aggregate_prediction_intervals (top-level branch): called contests, then the stop list
+    fn = _find(tree, "BootstrapElectionModel", "get_aggregate_prediction_intervals")
+    tops = [n for n in fn.body if isinstance(n, ast.If) and ast.unparse(n.test) == "self._is_top_level_aggregate(aggregate)"]
+    if not tops or not isinstance(fn.body[-1], ast.Return) or fn.body[-2] is not tops[-1]:
+        raise TranslateError("get_aggregate_prediction_intervals: the race-call block must be the last statement before the return")
+    fmt_stop = "self._format_called_contests(stop_model_call, [], contests, True, None, False).reshape(-1, 1)"
+    fl = NFlow(src, {"interval_lower": "lo", "interval_upper": "hi", "np.isclose(self.called_contests, 1)": "(B: isLhs)",
+                     "np.isclose(self.called_contests, 0)": "(B: isRhs)", fmt_stop: "(B: stop)",
+                     "self.lhs_called_threshold": "lhsT", "self.rhs_called_threshold": "rhsT"})
+    fl.run(tops[-1].body)
+    ip = [("lo", "Rat"), ("hi", "Rat"), ("isLhs", "Bool"), ("isRhs", "Bool"), ("stop", "Bool"), ("lhsT", "Rat"), ("rhsT", "Rat")]
+    for nm in ("interval_lower", "interval_upper"):
+        if fl.env.get(nm) is None:
+            raise TranslateError(f"get_aggregate_prediction_intervals: {nm}")
+    out.append(lean_def("override_lower", ip, "Rat", "  " + fl.final(fl.env["interval_lower"])))
+    out.append(lean_def("override_upper", ip, "Rat", "  " + fl.final(fl.env["interval_upper"])))
+    out.append(_strlist("interval_returned", [ast.unparse(fn.body[-1].value)]))
+    out.append(_strlist("format_calls", [ast.unparse(n) for n in ast.walk(tops[-1]) if isinstance(n, ast.Call)
+                                         and ast.unparse(n.func) == "self._format_called_contests"]))
+    out.append(_strlist("state_written", sorted({ast.unparse(t) for n in ast.walk(tops[-1]) if isinstance(n, ast.Assign)
+                                                 for t in n.targets if ast.unparse(t).startswith("self.")})))
     return out
 
 
@@ -827,6 +862,280 @@ def gen_C09():
     return _units_defs()
 
 
+UNITS = {"reporting_units": "rep", "unexpected_units": "unexp", "nonreporting_units": "nonrep"}
+
+def gen_C02(parse=None):
+    from harness import relx as R
+
+    parse = parse or _parse
+    out = []
+    src, tree = parse("models/BaseElectionModel.py")
+    fn = _find(tree, "BaseElectionModel", "_get_reporting_aggregate_votes")
+    ctx = R.Ctx()
+    rel = R.Rel(ctx, UNITS)
+    votes = rel.run(fn.body)
+    if votes is None:
+        raise TranslateError("_get_reporting_aggregate_votes: " + "; ".join(getattr(rel, "errors", ["no frame returned"])))
+    out.append(R.emit("votes_keys", ctx, votes.keys, "List Nat", False)[0])
+    for c in ("results_{estimand}", "reporting"):
+        out.append(R.emit("votes_" + R.san(c), ctx, votes.col(c), "Rat", True)[0])
+    fn2 = _find(tree, "BaseElectionModel", "_get_nonreporting_aggregate_votes")
+    fn3 = _find(tree, "BaseElectionModel", "get_aggregate_predictions")
+
+    def make(ctx):
+        def votes_leaf(call):
+            args = [ast.unparse(a) for a in call.args]
+            if args != ["reporting_units", "unexpected_units", "aggregate", "estimand"]:
+                raise TranslateError("arguments of _get_reporting_aggregate_votes: " + ", ".join(args))
+            f = R.Frame(ctx, ctx.param("avK", "List Nat"), leaf="av", is_sorted=True)
+            return R.Frame(ctx, f.keys, {c: f.col(c) for c in ("results_{estimand}", "reporting")}, None, (), (), True)
+
+        def nonrep_leaf(call):
+            args = [ast.unparse(a) for a in call.args]
+            if args != ["nonreporting_units", "aggregate"]:
+                raise TranslateError("arguments of _get_nonreporting_aggregate_votes: " + ", ".join(args))
+            return R.Rel(ctx, UNITS).run(fn2.body)
+        return {"self._get_reporting_aggregate_votes": votes_leaf, "self._get_nonreporting_aggregate_votes": nonrep_leaf}
+
+    ctx = R.Ctx()
+    rel = R.Rel(ctx, UNITS, calls=make(ctx))
+    agg = rel.run(fn3.body)
+    if agg is None:
+        raise TranslateError("get_aggregate_predictions: " + "; ".join(getattr(rel, "errors", ["no frame returned"])))
+    if not agg.sorted:
+        raise TranslateError("get_aggregate_predictions: result not sorted by the aggregate keys")
+    out.append(R.emit("agg_keys", ctx, agg.keys, "List Nat", False)[0])
+    for c in ("pred_{estimand}", "results_{estimand}", "reporting"):
+        out.append(R.emit("agg_" + R.san(c), ctx, agg.col(c), "Rat", True)[0])
+    # nonparametric aggregate intervals
+    src, tree = parse("models/NonparametricElectionModel.py")
+    fn4 = _find(tree, "NonparametricElectionModel", "get_aggregate_prediction_intervals")
+    ctx = R.Ctx()
+    rel = R.Rel(ctx, UNITS, calls=make(ctx))
+    rel.run([s for s in fn4.body if not isinstance(s, ast.Return)])
+    ad = rel.env.get("aggregate_data")
+    if ad is None:
+        raise TranslateError("NP get_aggregate_prediction_intervals: " + "; ".join(getattr(rel, "errors", ["aggregate_data"])))
+    if not ad.sorted:
+        raise TranslateError("NP aggregate intervals: not sorted by the aggregate keys")
+    ret = fn4.body[-1]
+    want = "PredictionIntervals(aggregate_data.lower.round(decimals=0), aggregate_data.upper.round(decimals=0))"
+    if not isinstance(ret, ast.Return) or ast.unparse(ret.value) != want:
+        raise TranslateError("NP aggregate intervals: return " + ast.unparse(ret)[:120])
+    out.append(R.emit("np_keys", ctx, ad.keys, "List Nat", False)[0])
+    out.append(R.emit("np_lower", ctx, f"(ElexModel.rhe {ad.col('lower')})", "Int", True)[0])
+    out.append(R.emit("np_upper", ctx, f"(ElexModel.rhe {ad.col('upper')})", "Int", True)[0])
+    out.append(_strlist("np_unit_columns", [ctx.strings.get("lower_string", "?"), ctx.strings.get("upper_string", "?")]))
+    return out
+
+
+def gen_C13():
+    """the loop nest of ModelClient.get_estimates as a trace of cache writes (unit intervals) and reads (aggregate intervals)"""
+    src, tree = _parse("client.py")
+    fn = _find(tree, "ModelClient", "get_estimates")
+    tops = [n for n in fn.body if isinstance(n, ast.For) and ast.unparse(n.iter) == "estimands"]
+    if len(tops) != 1:
+        raise TranslateError("get_estimates: expected exactly one `for estimand in estimands` loop")
+    lists = {"estimands": "ests", "prediction_intervals": "alphas", "self.results_handler.aggregates": "levels"}
+
+    def block(stmts, scope, alias):
+        parts = []
+        alias = dict(alias)
+        for st in stmts:
+            if isinstance(st, ast.For):
+                it = ast.unparse(st.iter)
+                if it not in lists or not isinstance(st.target, ast.Name):
+                    raise TranslateError("loop over " + it)
+                v = st.target.id
+                parts.append(f"({lists[it]}.flatMap fun {v} => {block(st.body, scope | {v}, alias)})")
+                continue
+            if isinstance(st, ast.Assign) and len(st.targets) == 1 and isinstance(st.targets[0], ast.Name) and isinstance(st.value, ast.Call) \
+                    and ast.unparse(st.value.func) == "self.get_aggregate_list" and len(st.value.args) == 2 and isinstance(st.value.args[1], ast.Name):
+                alias[st.targets[0].id] = st.value.args[1].id
+            for n in ast.walk(st) if not isinstance(st, (ast.For,)) else []:
+                if isinstance(n, ast.Call) and ast.unparse(n.func) == "self.model.get_unit_prediction_intervals":
+                    a = n.args
+                    if len(a) != 4 or not all(isinstance(x, ast.Name) and x.id in scope for x in a[2:]):
+                        raise TranslateError("arguments of get_unit_prediction_intervals: " + ast.unparse(n)[:160])
+                    key = None
+                    if isinstance(st, ast.Assign) and isinstance(st.targets[0], ast.Subscript):
+                        key = ast.unparse(st.targets[0])
+                    if key != f"alpha_to_unit_prediction_intervals[{a[2].id}]":
+                        raise TranslateError("unit intervals are not stored under their own level: " + str(key))
+                    parts.append(f"[ElexModel.Loops.Op.write {a[2].id} {a[3].id}]")
+                if isinstance(n, ast.Call) and ast.unparse(n.func) == "self.model.get_aggregate_prediction_intervals":
+                    a = n.args
+                    if len(a) != 7 or not (isinstance(a[3], ast.Name) and alias.get(a[3].id) in scope and isinstance(a[4], ast.Name)
+                                           and a[4].id in scope and isinstance(a[6], ast.Name) and a[6].id in scope):
+                        raise TranslateError("arguments of get_aggregate_prediction_intervals: " + ast.unparse(n)[:200])
+                    if ast.unparse(a[5]) != f"alpha_to_unit_prediction_intervals[{a[4].id}]":
+                        raise TranslateError("aggregate intervals do not receive the unit intervals of their own level: " + ast.unparse(a[5]))
+                    parts.append(f"[ElexModel.Loops.Op.read {a[4].id} {a[6].id} {alias[a[3].id]}]")
+        return "(" + " ++ ".join(parts or ["[]"]) + ")"
+
+    body = block([tops[0]], set(), {})
+    out = [f"def client_trace (ests levels alphas : List Nat) : List ElexModel.Loops.Op :=\n  {body}\n"]
+    # what is handed to the results handler for each cell, and the per-call reset of the handler
+    adds = [ast.unparse(n)[:200] for n in ast.walk(tops[0]) if isinstance(n, ast.Call) and ast.unparse(n.func).startswith("self.results_handler.add_")]
+    out.append(_strlist("results_handler_adds", adds))
+    # the gaussian model's caches: which key they are written / read under
+    src, tree = _parse("models/GaussianElectionModel.py")
+    uses = []
+    for fname in ("get_unit_prediction_intervals", "get_aggregate_prediction_intervals"):
+        g = _find(tree, "GaussianElectionModel", fname)
+        for n in ast.walk(g):
+            if isinstance(n, ast.Subscript) and ast.unparse(n.value).startswith("self.alpha_to_"):
+                uses.append(f"{fname}: {'store' if isinstance(n.ctx, ast.Store) else 'load'} {ast.unparse(n)}")
+    out.append(_strlist("gaussian_cache_uses", sorted(set(uses))))
+    return out
+
+
+def gen_C19():
+    """S3VersionUtil: the paging decision, the two window filters, the sampling slice, the failure handling"""
+    src, tree = _parse("handlers/s3.py")
+    lv = _find(tree, "S3VersionUtil", "list_versions")
+    ifs = [n for n in lv.body if isinstance(n, ast.If)]
+    rec = [n for n in ifs if any(isinstance(c, ast.Call) and ast.unparse(c.func) == "self.list_versions" for c in ast.walk(n))]
+    if len(rec) != 1:
+        raise TranslateError("list_versions: expected exactly one recursive branch")
+    fl = NFlow(src, {"response['IsTruncated']": "(B: truncated)", "len(versions)": "n", "self.start_date is None": "(B: startNone)",
+                     "versions[-1]['LastModified']": "lastTs", "self.start_date": "start"})
+    out = [lean_def("continue_cond", [("truncated", "Bool"), ("n", "Rat"), ("startNone", "Bool"), ("lastTs", "Rat"), ("start", "Rat")],
+                    "Bool", "  " + fl.final(fl.expr(rec[0].test)))]
+    call = next(c for c in ast.walk(rec[0]) if isinstance(c, ast.Call) and ast.unparse(c.func) == "self.list_versions")
+    out.append(_strlist("recursive_call", [ast.unparse(a) for a in call.args] + [f"{k.arg}={ast.unparse(k.value)}" for k in call.keywords]))
+    out.append(_strlist("recursive_combination", [ast.unparse(s) for s in rec[0].body]))
+    filt = []
+    for n in ifs:
+        if n is rec[0] or "is not None" not in ast.unparse(n.test):
+            continue
+        lam = [x for x in ast.walk(n) if isinstance(x, ast.Lambda)]
+        if len(lam) != 1:
+            raise TranslateError("list_versions: filter branch")
+        filt.append((ast.unparse(n.test), lam[0], ast.unparse(n.body[0])))
+    if [t for t, _, _ in filt] != ["self.start_date is not None", "self.end_date is not None"]:
+        raise TranslateError("list_versions: window filters " + str([t for t, _, _ in filt]))
+    tr = Tr(src, {"v['LastModified']": "ts", "self.start_date": "bound", "self.end_date": "bound"})
+    out.append(lean_def("keep_after_start", [("ts", "Rat"), ("bound", "Rat")], "Bool", "  " + tr.expr(filt[0][1].body)))
+    out.append(lean_def("keep_before_end", [("ts", "Rat"), ("bound", "Rat")], "Bool", "  " + tr.expr(filt[1][1].body)))
+    out.append(_strlist("filter_statements", [s for _, _, s in filt]))
+    out.append(_strlist("list_statements", [ast.unparse(s).replace("\n", " ")[:160] for s in lv.body
+                                            if not isinstance(s, ast.Expr) and s is not rec[0] and "is not None" not in ast.unparse(getattr(s, "test", ast.Constant(0)))]))
+    g = _find(tree, "S3VersionUtil", "get")
+    out.append(_strlist("sampling", [ast.unparse(n.iter) for n in ast.walk(g) if isinstance(n, ast.For)][:2]))
+    empty = [ast.unparse(n.test) + " -> " + ast.unparse(n.body[-1]) for n in g.body if isinstance(n, ast.If)]
+    out.append(_strlist("empty_listing", empty[:1]))
+    out.append(_strlist("queue_put", [ast.unparse(n) for n in ast.walk(g) if isinstance(n, ast.Call) and ast.unparse(n.func) == "q.put"]))
+    w = _find(tree, "S3VersionUtil", "wait_for_versions")
+    tries = [n for n in ast.walk(w) if isinstance(n, ast.Try)]
+    if len(tries) != 1:
+        raise TranslateError("wait_for_versions: try")
+    t = tries[0]
+    out.append(_strlist("wait_try", [ast.unparse(s) for s in t.body]))
+    out.append(_strlist("wait_except", [ast.unparse(h.type) if h.type else "bare" for h in t.handlers]
+                        + ["reraises" if any(isinstance(x, ast.Raise) for h in t.handlers for x in ast.walk(h)) else "swallows"]))
+    out.append(_strlist("wait_loop", [ast.unparse(n.test) for n in ast.walk(w) if isinstance(n, ast.While)]
+                        + [ast.unparse(s) for n in ast.walk(w) if isinstance(n, ast.While) for s in n.body if not isinstance(s, ast.Try)]))
+    return out
+
+
+def _lambda_of(call, name):
+    for k in call.keywords:
+        if k.arg == name and isinstance(k.value, ast.Lambda):
+            return k.value.body
+    raise TranslateError(f"assign({name}=lambda …) not found")
+
+
+def _gauss_agg_defs():
+    """GaussianElectionModel.get_aggregate_prediction_intervals: un-residualise, floor at the partial counts, add counted votes, round"""
+    src, tree = _parse("models/GaussianElectionModel.py")
+    fn = _find(tree, "GaussianElectionModel", "get_aggregate_prediction_intervals")
+    api = assigned_expr(fn, "aggregate_prediction_intervals")
+    assigns = [n for n in ast.walk(api) if isinstance(n, ast.Call) and isinstance(n.func, ast.Attribute) and n.func.attr == "assign"]
+    if len(assigns) != 1:
+        raise TranslateError("aggregate_prediction_intervals: assign")
+    env = {"x[f'last_election_results_{estimand}']": "last", "x.lb": "b", "x.ub": "b",
+           "aggregate_nonreporting_votes[f'results_{estimand}']": "part"}
+    out = []
+    tr = Tr(src, env)
+    out.append(lean_def("predicted_lower", [("last", "Rat"), ("b", "Rat"), ("part", "Rat")], "Rat", "  " + tr.expr(_lambda_of(assigns[0], "predicted_lower"))))
+    out.append(lean_def("predicted_upper", [("last", "Rat"), ("b", "Rat"), ("part", "Rat")], "Rat", "  " + tr.expr(_lambda_of(assigns[0], "predicted_upper"))))
+    ad = assigned_expr(fn, "aggregate_data")
+    assigns2 = [n for n in ast.walk(ad) if isinstance(n, ast.Call) and isinstance(n.func, ast.Attribute) and n.func.attr == "assign"]
+    if len(assigns2) != 1:
+        raise TranslateError("aggregate_data: assign")
+    tr = Tr(src, {"x.predicted_lower": "p", "x.predicted_upper": "p", "x[f'results_{estimand}']": "counted"})
+    out.append(lean_def("total_lower", [("p", "Rat"), ("counted", "Rat")], "Rat", "  " + tr.expr(_lambda_of(assigns2[0], "lower"))))
+    out.append(lean_def("total_upper", [("p", "Rat"), ("counted", "Rat")], "Rat", "  " + tr.expr(_lambda_of(assigns2[0], "upper"))))
+
+    def chain_shape(node):
+        shape = []
+        while True:
+            if isinstance(node, ast.Call) and isinstance(node.func, ast.Attribute):
+                if node.func.attr != "assign":
+                    shape.append(node.func.attr + "(" + ", ".join([ast.unparse(a) for a in node.args] + [f"{k.arg}={ast.unparse(k.value)}" for k in node.keywords]) + ")")
+                else:
+                    shape.append("assign(" + ", ".join(k.arg or "**" for k in node.keywords) + ")")
+                node = node.func.value
+            elif isinstance(node, ast.Subscript):
+                shape.append("[" + ast.unparse(node.slice) + "]")
+                node = node.value
+            else:
+                shape.append(ast.unparse(node))
+                break
+        return shape[::-1]
+
+    out.append(_strlist("unresidualize_chain", chain_shape(api)))
+    out.append(_strlist("total_chain", chain_shape(ad)))
+    out.append(_strlist("gauss_returned", [ast.unparse(fn.body[-1].value)]))
+    out.append(_strlist("no_nonreporting", [ast.unparse(n.test) + " -> " + ast.unparse(n.body[-1]) for n in fn.body if isinstance(n, ast.If)]))
+    return out, fn, src
+
+
+def gen_C15():
+    out, fn, src = _gauss_agg_defs()
+    tr = Tr(src, {"alpha": "alpha"})
+    out.append(lean_def("gauss_quantile", [("alpha", "Rat")], "Rat", "  " + tr.expr(assigned_expr(fn, "quantile"))))
+    # the matching loop
+    loops = [n for n in fn.body if isinstance(n, ast.For)]
+    if len(loops) != 1:
+        raise TranslateError("get_aggregate_prediction_intervals: matching loop")
+    lp = loops[0]
+    shape = ["for " + ast.unparse(lp.target) + " in " + ast.unparse(lp.iter)]
+    for st in lp.body:
+        if isinstance(st, ast.Assign):
+            shape.append(ast.unparse(st).replace("\n", " "))
+        elif isinstance(st, ast.If):
+            shape.append("if " + ast.unparse(st.test) + ": " + " ; ".join(ast.unparse(s) for s in st.body if not isinstance(s, ast.Assert))
+                         + " else: " + " ; ".join(ast.unparse(s) for s in st.orelse))
+        elif isinstance(st, ast.Expr) and isinstance(st.value, ast.Call):
+            shape.append(ast.unparse(st))
+    out.append(_strlist("matching_loop", shape))
+    out.append(_strlist("first_match", [ast.unparse(assigned_expr(fn, "modeled_bounds"))]))
+    fit_call = next(n for n in ast.walk(fn) if isinstance(n, ast.Call) and ast.unparse(n.func) == "GaussianModel(self.model_settings).fit")
+    out.append(_strlist("fit_call", [ast.unparse(a) for a in fit_call.args] + [f"{k.arg}={ast.unparse(k.value)}" for k in fit_call.keywords]))
+    # GaussianModel.fit: threshold, recursion test, large-group query, the two recursive calls, their concatenation
+    src2, tree2 = _parse("distributions/GaussianModel.py")
+    fit = _find(tree2, "GaussianModel", "fit")
+    tr = Tr(src2, {"n_conformalization_data": "n"})
+    out.append(lean_def("model_threshold", [("n", "Rat")], "Rat", "  " + tr.expr(assigned_expr(fit, "MODEL_THRESHOLD"))))
+    rec = [n for n in fit.body if isinstance(n, ast.If) and "MODEL_THRESHOLD" in ast.unparse(n.test)]
+    if len(rec) != 1:
+        raise TranslateError("GaussianModel.fit: recursion test")
+    tr = Tr(src2, {"np.min(counts['n'])": "minCount", "MODEL_THRESHOLD": "thr"})
+    out.append(lean_def("falls_back", [("minCount", "Rat"), ("thr", "Rat")], "Bool", "  " + tr.expr(rec[0].test)))
+    calls = [n for n in ast.walk(rec[0]) if isinstance(n, ast.Call) and ast.unparse(n.func) == "self.fit"]
+    out.append(_strlist("recursive_fits", ["; ".join([ast.unparse(a) for a in c.args] + [f"{k.arg}={ast.unparse(k.value)}" for k in c.keywords]) for c in calls]))
+    q = [ast.unparse(n.args[0]) for n in ast.walk(rec[0]) if isinstance(n, ast.Call) and isinstance(n.func, ast.Attribute) and n.func.attr == "query"]
+    out.append(_strlist("large_group_query", q))
+    out.append(_strlist("combine", [ast.unparse(assigned_expr(rec[0], "x"))] + [ast.unparse(s) for s in rec[0].orelse]))
+    out.append(_strlist("empty_calibration", [ast.unparse(n.test) + " -> " + ast.unparse(n.body[-1]) for n in fit.body
+                                              if isinstance(n, ast.If) and "n_conformalization_data == 0" in ast.unparse(n.test)]))
+    cnt = _find(tree2, "GaussianModel", "_get_n_units_per_group")
+    out.append(_strlist("group_counts", [ast.unparse(s).replace("\n", " ")[:300] for s in cnt.body if not isinstance(s, ast.Expr)]))
+    return out
+
+
 def gen_C17():
     """scalar formulas and tests of VersionedDataHandler.compute_versioned_margin_estimate (inner compute_estimated_margin)"""
     src, tree = _parse("handlers/data/VersionedData.py")
@@ -877,10 +1186,12 @@ def gen_C17():
     return out
 
 
-GENERATORS = {"C03": gen_C03, "C08": gen_C08, "C09": gen_C09, "C04": gen_C04, "C05": gen_C05, "C06": gen_C06, "C07": gen_C07, "C10": gen_C10, "C12": gen_C12, "C14": gen_C14, "C17": gen_C17, "C18": gen_C18, "C20": gen_C20}
+GENERATORS = {"C02": gen_C02, "C03": gen_C03, "C08": gen_C08, "C09": gen_C09, "C04": gen_C04, "C05": gen_C05, "C06": gen_C06, "C07": gen_C07, "C10": gen_C10, "C12": gen_C12, "C13": gen_C13, "C14": gen_C14, "C15": gen_C15, "C17": gen_C17, "C18": gen_C18, "C19": gen_C19, "C20": gen_C20}
+
+EXTRA_IMPORTS = {"C02": "import ElexModel.Core.Table\n", "C13": "import ElexModel.Core.Loops\n"}
 
 HEADER = """import ElexModel.Core.Num
-/-! GENERATED by harness/extract.py from /repo/src on every check run. Do not edit. -/
+{extra}/-! GENERATED by harness/extract.py from /repo/src on every check run. Do not edit. -/
 set_option linter.unusedVariables false
 namespace ElexModel.Gen.{prop}
 
@@ -897,7 +1208,7 @@ def generate(prop):
         broken.append(f"translator anchor for {prop}: {e}")
     except (OSError, SyntaxError) as e:
         broken.append(f"translator cannot read source for {prop}: {e}")
-    text = HEADER.format(prop=prop) + "\n".join(defs) + f"\nend ElexModel.Gen.{prop}\n"
+    text = HEADER.format(prop=prop, extra=EXTRA_IMPORTS.get(prop, "")) + "\n".join(defs) + f"\nend ElexModel.Gen.{prop}\n"
     path = C.LEAN / "ElexModel" / "Gen" / f"{prop}.lean"
     if not broken:
         if not path.exists() or path.read_text() != text:
